@@ -22,6 +22,14 @@ var VerifRoot = func() string {
 	return "/verif"
 }()
 
+// RepoRoot is the compose-go tree under test (/repo; bin/check exports VERIF_REPO when a background run uses a snapshot).
+var RepoRoot = func() string {
+	if v := os.Getenv("VERIF_REPO"); v != "" {
+		return v
+	}
+	return "/repo"
+}()
+
 // Exit codes of a check.
 const (
 	ExitOK           = 0
